@@ -26,6 +26,7 @@ fn space_for(tier: Tier) -> (Space, usize) {
             s.ast_range("ALTS", 1, 4, 16, 4).ast_range("SEQO", 1, 5, 16, 4).ast_range("HI", 1, 3, 16, 4).ast_range("HIQ", 1, 4, 16, 3).ast_range("QN", 1, 4, 8, 11).ast_range("ALTM", 1, 4, 16, 4);
             s.tok("SPELL", &gen::T_SPELL, 5, 256);
             s.ast_range("EMPB", 1, 5, 16, 4);
+            s.list("laws on trigger patterns", crate::checks::c08::triggers().len() as u64, 16);
             (s, 3)
         }
         Tier::Thorough => {
@@ -35,8 +36,142 @@ fn space_for(tier: Tier) -> (Space, usize) {
             s.ast_range("K", 5, 5, 128, 203).ast_range("CL", 4, 4, 64, 203).ast_range("KL", 1, 3, 8, 207);
             s.tok("SPELL", &gen::T_SPELL, 6, 256);
             s.ast_range("EMPB", 1, 5, 16, 4);
+            s.list("laws on trigger patterns", crate::checks::c08::triggers().len() as u64, 16);
             (s, 4)
         }
+    }
+}
+
+// ---------------------------------------------------------------------------
+// laws on parsed text (the trigger patterns of C08: shapes of 8 - 12 nodes that no AST
+// scope reaches). One node is rewritten at a time; every law used here keeps ordered
+// choice, so spans are compared as well. Bodies that contain a capturing group are never
+// duplicated (group numbers stay).
+
+use crate::refparse::Ast;
+
+fn local_laws(a: &Ast) -> Vec<(&'static str, Ast)> {
+    let nc = |x: Ast| Ast::NonCap(Box::new(x));
+    let mut v = vec![];
+    match a {
+        Ast::Rep(b, min, max, g) if !b.has_group() => {
+            let b0 = (**b).clone();
+            let rep = |lo: u32, hi: Option<u32>| Ast::Rep(b.clone(), lo, hi, *g);
+            match (*min, *max) {
+                (1, None) => v.push(("r+ = r r*", Ast::Seq(vec![b0.clone(), rep(0, None)]))),
+                (0, None) => v.push(("r* = (?:r+)?", Ast::Rep(Box::new(nc(rep(1, None))), 0, Some(1), *g))),
+                (0, Some(1)) => v.push(("r? = (?:r|)", if *g { nc(Ast::Alt(vec![b0.clone(), Ast::Empty])) } else { nc(Ast::Alt(vec![Ast::Empty, b0.clone()])) })),
+                (2, Some(2)) => v.push(("r{2} = r r", Ast::Seq(vec![b0.clone(), b0.clone()]))),
+                (3, Some(3)) => v.push(("r{3} = r r r", Ast::Seq(vec![b0.clone(), b0.clone(), b0.clone()]))),
+                (1, Some(2)) => v.push(("r{1,2} = r r?", Ast::Seq(vec![b0.clone(), rep(0, Some(1))]))),
+                (2, Some(3)) => v.push(("r{2,3} = r r r?", Ast::Seq(vec![b0.clone(), b0.clone(), rep(0, Some(1))]))),
+                (2, None) => v.push(("r{2,} = r r r*", Ast::Seq(vec![b0.clone(), b0.clone(), rep(0, None)]))),
+                _ => {}
+            }
+            // the operand in a group of its own
+            v.push(("rq = (?:r)q", Ast::Rep(Box::new(nc(b0)), *min, *max, *g)));
+        }
+        Ast::Lit(_) | Ast::Dot | Ast::Class(_) | Ast::Esc(_) | Ast::Group(..) | Ast::BackRef(_) => v.push(("r = (?:r)", nc(a.clone()))),
+        _ => {}
+    }
+    v
+}
+
+/// Every spelling obtained by rewriting exactly one node.
+fn law_variants(a: &Ast) -> Vec<(&'static str, Ast)> {
+    let mut v = local_laws(a);
+    match a {
+        Ast::Seq(xs) | Ast::Alt(xs) => {
+            for (i, x) in xs.iter().enumerate() {
+                for (law, nx) in law_variants(x) {
+                    let mut ys = xs.clone();
+                    ys[i] = nx;
+                    v.push((law, if matches!(a, Ast::Seq(_)) { Ast::Seq(ys) } else { Ast::Alt(ys) }));
+                }
+            }
+        }
+        Ast::Rep(b, min, max, g) => {
+            for (law, nb) in law_variants(b) {
+                // a quantifier's operand stays an atom or a group
+                if matches!(nb, Ast::NonCap(_) | Ast::Group(..)) {
+                    v.push((law, Ast::Rep(Box::new(nb), *min, *max, *g)));
+                }
+            }
+        }
+        Ast::Group(k, b) => {
+            for (law, nb) in law_variants(b) {
+                v.push((law, Ast::Group(*k, Box::new(nb))));
+            }
+        }
+        Ast::NonCap(b) => {
+            for (law, nb) in law_variants(b) {
+                v.push((law, Ast::NonCap(Box::new(nb))));
+            }
+        }
+        _ => {}
+    }
+    v
+}
+
+fn trigger_laws_chunk(ctx: &Ctx, scope_name: &str, lo: u64, hi: u64, out: &mut ChunkOut) {
+    let t = crate::checks::c08::triggers();
+    let mut inputs = all_strings(&['a', 'b', 'c', 'd'], 3);
+    inputs.extend(["aaaa", "abab", "aaab", "ababb", "1111", "a1", "b21", "\n\na\n", "a\nb", "zzy", "xyz", "abcab", "aabb", "aAbB", "abdd", "abdcd"].iter().map(|s| s.to_string()));
+    let flag_menu: &[&str] = if ctx.tier == Tier::Quick { &[""] } else { &["", "ims"] };
+    for i in lo..hi {
+        let text = &t[i as usize];
+        let parsed = match common::ref_valid(text, ctx) {
+            Some(p) => p,
+            None => continue,
+        };
+        if parsed.ast.has_nullable_loop() {
+            out.inc("nullable_loop_skipped");
+            continue;
+        }
+        out.shape = parsed.ast.shape();
+        for (law, na) in law_variants(&parsed.ast) {
+            let other = crate::refparse::render(&na);
+            // the rewritten text must still be what was meant
+            match common::ref_valid(&other, ctx) {
+                Some(p2) if p2.groups == parsed.groups && !p2.ast.has_nullable_loop() => {}
+                _ => {
+                    out.inc("rewrite_not_reparsed_skipped");
+                    continue;
+                }
+            }
+            for flags in flag_menu {
+                let (ra, rb) = match (common::compile(text, flags, false), common::compile(&other, flags, false)) {
+                    (Compiled::Ok(a), Compiled::Ok(b)) => (a, b),
+                    _ => {
+                        out.inc("rejected_or_crash");
+                        continue;
+                    }
+                };
+                out.inc("nontrivial");
+                for inp in &inputs {
+                    out.inc("states");
+                    let (ma, mb) = (imp::is_match(&ra, inp), imp::is_match(&rb, inp));
+                    let (sa, sb) = (imp::spans_from_replace(&ra, inp), imp::spans_from_replace(&rb, inp));
+                    if (ma.is_crash() && mb.is_crash()) || (sa.is_crash() && sb.is_crash()) {
+                        out.inc("inconclusive_crash");
+                        continue;
+                    }
+                    out.inc("validated");
+                    // (a regex that matches the empty string has no spans to compare: both Err)
+                    if ma != mb || sa != sb {
+                        out.fail(
+                            "C20",
+                            &Case::new(scope_name, text, flags).input(inp).repl(&format!("law:{} -> {}", law, other)).api(if ma != mb { "is_match" } else { "replace_all" }),
+                            if ma != mb { "SpellingsDiffer" } else { "SpansDiffer" },
+                            &format!("same answer for {:?} and {:?}", text, other),
+                            &format!("{} {:?} vs {} {:?}", ma.show(), sa.ok(), mb.show(), sb.ok()),
+                            "",
+                        );
+                    }
+                }
+            }
+        }
+        out.sample(J::obj(vec![("trigger_pattern", J::s(text))]));
     }
 }
 
@@ -312,6 +447,10 @@ impl Check for C20 {
                 }
                 out.sample(J::obj(vec![("spelling", J::s(text)), ("plain", J::s(&plain))]));
             });
+            return;
+        }
+        if let SegKind::List { .. } = seg.kind {
+            trigger_laws_chunk(ctx, &scope_name, lo, hi, out);
             return;
         }
         let (scope, size) = match &seg.kind {
